@@ -99,7 +99,8 @@ class C08(Prop):
         }
         for name, f in shapes.items():
             for k in depths:
-                if k > 200000 and name in ("ternary-cond", "hash", "blocks", "elseif", "calls"):
+                if k > 200000 and name in ("ternary-cond", "hash", "blocks", "elseif", "calls", "strings"):
+                    # (string literals are lexed in quadratic time: slow, but not a crash)
                     continue
                 out.append(case(f(k), "N", "nesting-" + name))
         return out
